@@ -1,6 +1,7 @@
 package main
 
 import (
+	"encoding/base64"
 	"fmt"
 	"math"
 	"os"
@@ -253,7 +254,15 @@ func (rn *runner) do(op Op, res *OpResult) {
 		rn.st.fc[op.ID] = fc
 	case "entry":
 		// a parser entry point driven directly with document-derived text (C07)
-		res.Calls = runEntry(op.Kind, op.Text)
+		txt := op.Text
+		if op.TextB64 != "" {
+			b, err := base64.StdEncoding.DecodeString(op.TextB64)
+			if err != nil {
+				panic("harness: bad text_b64")
+			}
+			txt = string(b)
+		}
+		res.Calls = runEntry(op.Kind, txt)
 	case "css":
 		b := []byte(op.Text)
 		if op.Text == "" {
@@ -373,6 +382,15 @@ func (rn *runner) do(op Op, res *OpResult) {
 			var footnotes []bo.Box
 			root := bo.BuildFormattingStructure(ho.h.Root, styleFor, resolver, ho.h.BaseUrl, &tc, cs, &footnotes)
 			res.Calls = len(bo.Descendants(root))
+			// computed values are lazy: ask for every property of every box, so that var()
+			// substitution and each validator's computed form run in the parse stage too
+			for _, b := range bo.Descendants(root) {
+				if st := b.Box().Style; st != nil {
+					for k := pr.KnownProp(1); k < pr.NbProperties; k++ {
+						_ = st.Get(k.Key())
+					}
+				}
+			}
 			_ = ho.h.GetMetadata()
 		}
 	case "write":
@@ -534,6 +552,15 @@ func pageGeom(p *bo.PageBox) PageGeom {
 }
 
 
+// exactBytes returns txt in a slice with no spare capacity: a parser reading past the end of
+// its input then panics (slice bounds) instead of silently reading whatever the allocator
+// left after it - which it would with []byte(txt), whose capacity is rounded to a size class.
+func exactBytes(txt string) []byte {
+	b := make([]byte, len(txt))
+	copy(b, txt)
+	return b[:len(txt):len(txt)]
+}
+
 // runEntry feeds text to one of the parsing entry points named by C07's observe_at.
 // Errors / nil results are fine; only panics, fatal errors and endless loops count.
 func runEntry(kind, txt string) int {
@@ -550,14 +577,14 @@ func runEntry(kind, txt string) int {
 		return len(g)
 	case "stylesheet":
 		_, _ = tree.NewCSSDefault(utils.InputString(txt))
-		return len(pa.ParseStylesheetBytes([]byte(txt), false, false))
+		return len(pa.ParseStylesheetBytes(exactBytes(txt), false, false))
 	case "declarations":
 		decls := pa.ParseBlocksContentsString(txt)
 		out := validation.PreprocessDeclarations("http://sim.test/entry/", decls)
 		_ = pa.ParseDeclarationListString(txt, true, true)
 		return len(out)
 	case "tokens":
-		toks := pa.Tokenize([]byte(txt), false)
+		toks := pa.Tokenize(exactBytes(txt), false)
 		_ = pa.Serialize(toks)
 		_ = pa.ParseOneComponentValue(toks)
 		_ = pa.ParseOneDeclaration(toks)
